@@ -195,10 +195,13 @@ def c08(tier, seed):
         for ctx in ('paren', 'and', 'andparen', 'or'):
             jobs.append([pair, ctx, 'valid', '0', '-', '-'])
             jobs.append([pair, ctx, 'valid', '0', e1, '-'])
+        for ctx in ('aftersuffix', 'afteronly', 'afterref', 'beforesuffix'):
+            jobs.append([pair, ctx, 'valid', '0', '-', '-'])
+            jobs.append([pair, ctx, 'term', '1', '-', '-'])
         jobs.append([pair, 'paren', 'term', '0', '-', '-'])
         jobs.append([pair, 'andparen', 'term', '1', '-', '-'])
     gs.append(grp('spellings', 'VH_spell', jobs, merge=M, whole_table=True, cost=40,
-                  bound='X over all listed ids, both spellings valid; Y over all listed ids with/without +, with/without exception; contexts bare, (..), .. AND MIT, (MIT AND ..), MIT OR ..',
+                  bound='X over all listed ids, both spellings valid; Y over all listed ids with/without +, with/without exception; contexts bare, (..), .. AND MIT, (MIT AND ..), MIT OR .., and after / before terms that carry the suffix text themselves (GPL-2.0-or-later OR .., LGPL-2.1-only AND .., LicenseRef-a-or-later-only OR .., .. OR GPL-3.0-or-later AND LGPL-2.1-only)',
                   symbolic='ids X and Y (choice variables over the whole lists)', asserts=['same-validity', 'spellings-interchangeable']))
     cj = [[pair, op, e1, py] for pair in ('plus', 'only') for op in ('AND', 'OR') for py in '01']
     gs.append(grp('spellings-in-compound', 'VH_spellCtx', cj, merge=MS, cost=20, whole_table=True,
